@@ -10,7 +10,7 @@ cd $WT
 PYTHONPATH=$WT /venv/bin/python $D/demo.py > $D/demo_clean.log 2>&1; CLEAN=$?
 git apply $D/patch.diff || { echo "patch does not apply"; exit 3; }
 PYTHONPATH=$WT /venv/bin/python $D/demo.py > $D/demo_mut.log 2>&1; MUT=$?
-PYTHONPATH=$WT timeout 10000 /venv/bin/python -m pytest -q -p no:cacheprovider --timeout=900 Tests > $D/tests_mut.log 2>&1
+PYTHONPATH=$WT timeout 3000 /venv/bin/python -m pytest -q -p no:cacheprovider --timeout=900 Tests > $D/tests_mut.log 2>&1
 TAIL=$(tail -1 $D/tests_mut.log)
 FAILED=$(grep -c "^FAILED" $D/tests_mut.log)
 FAILNAMES=$(grep "^FAILED" $D/tests_mut.log | tr '\n' ';')
